@@ -128,8 +128,12 @@ func cmdDump(args []string) int {
 	pool := newSolverPool(16, "")
 	defer pool.close()
 	for _, r := range reps {
+		seenErr := map[string]bool{}
 		for _, e := range r.Errors {
-			fmt.Println("ERROR:", e)
+			if !seenErr[e] {
+				seenErr[e] = true
+				fmt.Println("ERROR:", e)
+			}
 		}
 		if r.tr == nil {
 			continue
